@@ -375,7 +375,7 @@ class Ctx:
             t.nontriv(hash(repr(before["tbl"])))
 
 
-def profiles(tier, light=False):
+def profiles(tier, light=False, focus=None):
     P = []
     if tier == "quick":
         for counting in (False, True):
@@ -399,14 +399,14 @@ def profiles(tier, light=False):
     # same first bucket with both candidates equal (its insertion must evict), buckets of one slot
     for counting in (False, True):
         P.append(dict(fp={"a": 1, "b": 3, "e": 1}, altvals=[0, 1], bs=1, ms=2, counting=counting, cap0s=[2], autos=[False], maxcap=2,
-                      maxdepth=5 if counting or tier != "quick" else 4, maxout=3, nparts=4, histview=True, queries=True, maxreloads=0))
+                      maxdepth=5 if tier != "quick" or (counting and focus in ("C03", "C08")) else 4, maxout=3, nparts=4, histview=True, queries=True, maxreloads=0))
     return P
 
 
 def run(focus, tier, seed):
     total = Tally(focus)
     jobs = []
-    for p in profiles(tier, focus in ("C05", "C14", "C19")):
+    for p in profiles(tier, focus in ("C05", "C14", "C19"), focus):
         if p.get("histview") and focus == "C05":
             continue
         mod = mc_module(p)
